@@ -40,6 +40,17 @@ fn both(p: &[u8]) -> (Option<u64>, Option<u64>) {
     (a, b)
 }
 
+fn interp_vs_clif(p: &[u8]) -> (Option<u64>, String) {
+    let mut vm = rbpf::EbpfVmNoData::new(Some(p)).unwrap();
+    let a = vm.execute_program().ok();
+    let b = match catch_unwind(AssertUnwindSafe(|| { vm.cranelift_compile().map(|_| vm.execute_program_cranelift().ok()) })) {
+        Ok(Ok(v)) => format!("{:?}", v),
+        Ok(Err(_)) => "compile error".to_string(),
+        Err(_) => "panic".to_string(),
+    };
+    (a, b)
+}
+
 fn quiet<T>(f: impl FnOnce() -> T) -> T {
     let hook = std::panic::take_hook();
     std::panic::set_hook(Box::new(|_| {}));
@@ -261,6 +272,53 @@ fn run_inner(id: &str) -> Option<(bool, String)> {
             ]);
             let (a, b) = both(&p);
             (a != b, format!("caller and callee both use [r10-8]: interpreter returns {:?} (separate frames), JIT returns {:?}", a, b))
+        }
+        "clif-jmp64-compared-as-32" => {
+            // r1 = 0x1_0000_0005 ; jeq r1, 5 must NOT be taken (64-bit comparison)
+            let p = prog(&[i(ebpf::LD_DW_IMM, 1, 0, 0, 5), i(0, 0, 0, 0, 1), i(ebpf::MOV64_IMM, 0, 0, 0, 1), i(ebpf::JEQ_IMM, 1, 0, 1, 5), i(ebpf::EXIT, 0, 0, 0, 0), i(ebpf::MOV64_IMM, 0, 0, 0, 2), i(ebpf::EXIT, 0, 0, 0, 0)]);
+            let (a, b) = interp_vs_clif(&p);
+            (format!("{:?}", a) != b, format!("jeq r1, 5 with r1 = 0x100000005: interpreter {:?}, Cranelift {}", a, b))
+        }
+        "clif-ldabs-dst" => {
+            let p = prog(&[i(ebpf::MOV64_IMM, 0, 0, 0, 7), i(ebpf::LD_ABS_B, 3, 0, 0, 0), i(ebpf::EXIT, 0, 0, 0, 0)]);
+            let mut pkt = [0x2au8; 4];
+            let mut vm = rbpf::EbpfVmRaw::new(Some(&p)).unwrap();
+            let a = vm.execute_program(unsafe { &mut *(&mut pkt as *mut [u8; 4]) }).ok();
+            vm.cranelift_compile().unwrap();
+            let b = vm.execute_program_cranelift(unsafe { &mut *(&mut pkt as *mut [u8; 4]) }).ok();
+            (a != b, format!("ldabsb encoded with dst nibble 3: the result belongs in r0; interpreter {:?}, Cranelift {:?}", a, b))
+        }
+        "clif-local-call-compiled-as-helper" => {
+            // call local +1 ; exit ; mov r0, 9 ; exit   with a helper registered under id 1
+            fn h(_a: u64, _b: u64, _c: u64, _d: u64, _e: u64) -> u64 { 77 }
+            let p = prog(&[i(ebpf::CALL, 0, 1, 0, 1), i(ebpf::EXIT, 0, 0, 0, 0), i(ebpf::MOV64_IMM, 0, 0, 0, 9), i(ebpf::EXIT, 0, 0, 0, 0)]);
+            let mut vm = rbpf::EbpfVmNoData::new(Some(&p)).unwrap();
+            vm.register_helper(1, h).unwrap();
+            let a = vm.execute_program().ok();
+            let c = vm.cranelift_compile();
+            let b = if c.is_ok() { vm.execute_program_cranelift().ok() } else { None };
+            (c.is_ok(), format!("program with an eBPF-to-eBPF call and a helper registered under the displacement: interpreter {:?}; cranelift_compile is_ok = {}, result {:?} (must be refused)", a, c.is_ok(), b))
+        }
+        "clif-le-no-truncation" => {
+            let p = prog(&[i(ebpf::LD_DW_IMM, 0, 0, 0, 0x55667788), i(0, 0, 0, 0, 0x11223344), i(ebpf::LE, 0, 0, 0, 16), i(ebpf::EXIT, 0, 0, 0, 0)]);
+            let (a, b) = interp_vs_clif(&p);
+            (format!("{:?}", a) != b, format!("le16 r0 with r0 = 0x1122334455667788: interpreter {:?}, Cranelift {}", a, b))
+        }
+        "clif-mod32-by-zero" => {
+            let p = prog(&[i(ebpf::LD_DW_IMM, 0, 0, 0, 0x55667788), i(0, 0, 0, 0, 0x11223344), i(ebpf::MOV64_IMM, 1, 0, 0, 0), i(ebpf::MOD32_REG, 0, 1, 0, 0), i(ebpf::EXIT, 0, 0, 0, 0)]);
+            let (a, b) = interp_vs_clif(&p);
+            (format!("{:?}", a) != b, format!("mod32 r0, r1 with r1 = 0, r0 = 0x1122334455667788: interpreter {:?}, Cranelift {}", a, b))
+        }
+        "clif-exit-off-panics" => {
+            let p = prog(&[i(ebpf::MOV64_IMM, 0, 0, 0, 1), i(ebpf::EXIT, 0, 0, -7, 0)]);
+            let (a, b) = interp_vs_clif(&p);
+            (b == "panic", format!("verified program whose exit carries a (meaningless) offset field -7: interpreter {:?}, Cranelift {}", a, b))
+        }
+        "clif-jump-to-insn-0" => {
+            // 0: mov r0, 1 ; 1: jeq r0, 0, -2 (-> 0, not taken) ; 2: exit
+            let p = prog(&[i(ebpf::MOV64_IMM, 0, 0, 0, 1), i(ebpf::JEQ_IMM, 0, 0, -2, 0), i(ebpf::EXIT, 0, 0, 0, 0)]);
+            let (a, b) = interp_vs_clif(&p);
+            (format!("{:?}", a) != b, format!("program with a backward jump to instruction 0: interpreter {:?}, Cranelift {}", a, b))
         }
         _ => return None,
     })
